@@ -59,6 +59,10 @@ theorem readUFL_canonical (i f : Nat) (hi : i ≤ UINTVAR_MAX) (hf : f < 128) (r
   rw [floatOf_small _ hi]
   simp
 
+theorem readUFL_canonical' (i f : Nat) (hi : i ≤ UINTVAR_MAX) (hf : f < 128) (rest : Bytes) :
+    readUFL (writeURaw i ++ f :: rest) = .ok (⟨false, i * 128 + f, 7⟩, rest) :=
+  readUFL_canonical i f hi hf rest
+
 theorem sintMax_le : SINTVAR_MAX ≤ UINTVAR_MAX := by decide
 
 /-- `read_sfloatvar` on `sintvar(±i) ++ [f]`: the double `±(i + f/128)` -/
@@ -73,6 +77,10 @@ theorem readSFL_canonical (neg : Bool) (i f : Nat) (hi : i ≤ SINTVAR_MAX) (hf 
   simp only [readSFL, hr]
   rw [floatOf_small _ (by have := sintMax_le; simpa using (by omega : i ≤ UINTVAR_MAX))]
   simp
+
+theorem readSFL_canonical' (neg : Bool) (i f : Nat) (hi : i ≤ SINTVAR_MAX) (hf : f < 128) (rest : Bytes) :
+    readSFL (writeSRaw i neg ++ f :: rest) = .ok (⟨neg, i * 128 + f, 7⟩, rest) :=
+  readSFL_canonical neg i f hi hf rest
 
 /-- `write_ufloatvar(i + f/128, 1)` -/
 theorem writeUF_canonical (i f : Nat) (hi : i ≤ UINTVAR_MAX) (hf : f < 128) :
